@@ -227,16 +227,56 @@ func matchErr(c *Ctx, t *Terminal, ev Val, spec *ErrSpec) string {
 // ---------------------------------------------------------------- time comparison truth tables
 
 type timeCmp struct {
-	op   string // Before | After | Equal
+	op   string // Before | After | Equal | cmp<k | k<cmp | cmp==k  (the last three: a.Compare(b) against the constant k)
 	a, b string // access paths of operands
 	pol  bool
 	seq  int
+	k    int64
+}
+
+// compareFact recognises a.Compare(b) < k, k < a.Compare(b) and a.Compare(b) == k (normalised comparison forms).
+func compareFact(c Val) (timeCmp, bool) {
+	b, ok := c.(*BinV)
+	if !ok {
+		return timeCmp{}, false
+	}
+	isCmp := func(v Val) (*CallV, bool) {
+		cv, ok := v.(*CallV)
+		return cv, ok && cv.Callee == "(time.Time).Compare" && len(cv.Args) == 2
+	}
+	switch b.Op {
+	case token.LSS:
+		if cv, ok := isCmp(b.X); ok {
+			if k, isK := constInt(b.Y); isK {
+				return timeCmp{op: "cmp<k", a: ap(cv.Args[0]), b: ap(cv.Args[1]), k: k}, true
+			}
+		}
+		if cv, ok := isCmp(b.Y); ok {
+			if k, isK := constInt(b.X); isK {
+				return timeCmp{op: "k<cmp", a: ap(cv.Args[0]), b: ap(cv.Args[1]), k: k}, true
+			}
+		}
+	case token.EQL:
+		for _, pr := range [][2]Val{{b.X, b.Y}, {b.Y, b.X}} {
+			if cv, ok := isCmp(pr[0]); ok {
+				if k, isK := constInt(pr[1]); isK {
+					return timeCmp{op: "cmp==k", a: ap(cv.Args[0]), b: ap(cv.Args[1]), k: k}, true
+				}
+			}
+		}
+	}
+	return timeCmp{}, false
 }
 
 // timeFacts extracts the facts of t that compare two instants.
 func timeFacts(t *Terminal) []timeCmp {
 	var out []timeCmp
 	for _, f := range t.St.facts {
+		if tc, ok := compareFact(f.Cond); ok {
+			tc.pol, tc.seq = f.Pol, f.Seq
+			out = append(out, tc)
+			continue
+		}
 		cv, ok := f.Cond.(*CallV)
 		if !ok {
 			continue
@@ -273,6 +313,12 @@ func evalCmp(tc timeCmp, x, y string, ord int) (bool, bool) {
 		return o < 0, true
 	case "After":
 		return o > 0, true
+	case "cmp<k":
+		return int64(o) < tc.k, true
+	case "k<cmp":
+		return tc.k < int64(o), true
+	case "cmp==k":
+		return int64(o) == tc.k, true
 	default:
 		return o == 0, true
 	}
@@ -356,6 +402,10 @@ func guardBefore(t *Terminal, e *Event) (Fact, bool) {
 }
 
 func isTimeCmpFact(f Fact) (timeCmp, bool) {
+	if tc, ok := compareFact(f.Cond); ok {
+		tc.pol = f.Pol
+		return tc, true
+	}
 	cv, ok := f.Cond.(*CallV)
 	if !ok {
 		return timeCmp{}, false
